@@ -349,6 +349,12 @@ func (f *clusterFixture) close() {
 // openClusterFixture loads the case's rows into N partition databases and
 // opens a passthrough leader; handlers are registered by the caller.
 func openClusterFixture(c *C11Case, now int64, timeout time.Duration) (*clusterFixture, error) {
+	return openClusterFixtureWith(c, now, timeout, true)
+}
+
+// openClusterFixtureWith: flushed decides whether the partitions' data is on
+// disk or stays in their memstores.
+func openClusterFixtureWith(c *C11Case, now int64, timeout time.Duration, flushed bool) (*clusterFixture, error) {
 	f := &clusterFixture{}
 	byPart := make([][]h.Point, c.N)
 	for _, p := range c.Data.Points {
@@ -364,7 +370,10 @@ func openClusterFixture(c *C11Case, now int64, timeout time.Duration) (*clusterF
 			return nil, fmt.Errorf("%w: open partition: %v", errSetup, err)
 		}
 		f.parts = append(f.parts, db)
-		d := DataCase{Schema: c.Data.Schema, Points: byPart[i], FlushAt: []int{len(byPart[i])}}
+		d := DataCase{Schema: c.Data.Schema, Points: byPart[i]}
+		if flushed {
+			d.FlushAt = []int{len(byPart[i])}
+		}
 		if err := d.load(db); err != nil {
 			f.close()
 			return nil, err
